@@ -19,7 +19,12 @@ ShortDts == IF Env("GEN_DTS", 0) = 1 THEN {0, 1, 30} ELSE {1}
 Rec(a, k, t) == [a |-> a, k |-> k, t |-> t]
 Short1 == {<<Rec(1, k, 10)>> : k \in Kinds}
 Short2 == {<<Rec(1, k1, 10), Rec(a, k2, 10 + dt)>> : k1 \in Kinds, a \in {1, 2}, k2 \in Kinds, dt \in ShortDts}
-ASSUME Mode = "short" => \A h \in Short1 \cup Short2 : PrintT(ToJson([na |-> 2, h |-> h]))
+(* histories that begin at time 0 (a capture replayed with times relative to *)
+(* its start): "first seen = 0" is a time like any other                     *)
+ZKinds == {"ID", "S4", "APE"}
+Short0 == {<<Rec(1, k1, 0), Rec(1, k2, 1)>> : k1 \in Kinds, k2 \in ZKinds}
+          \cup {<<Rec(1, k1, 0), Rec(2, k2, 0), Rec(1, k2, 2), Rec(2, k1, 3)>> : k1 \in Kinds, k2 \in ZKinds}
+ASSUME Mode = "short" => \A h \in Short1 \cup Short2 \cup Short0 : PrintT(ToJson([na |-> 2, h |-> h]))
 
 (* GEN_MODE=hshort (constant level, for the history / REST-view part): every *)
 (*   history of at most two records over HKinds and the three-record         *)
@@ -50,7 +55,8 @@ vars == <<hist, clock, na, n, pend, done, flt>>
 Init == /\ hist = <<>>
         /\ na \in 1..6
         /\ n \in Lens
-        /\ clock = [a \in 1..6 |-> 10 + 7 * a]
+        /\ clock \in {[a \in 1..6 |-> 10 + 7 * a], [a \in 1..6 |-> 10 + 7 * a], [a \in 1..6 |-> 10 + 7 * a],
+                      [a \in 1..6 |-> 0]}
         /\ pend = <<>>
         /\ done = FALSE
         /\ flt \in FilterModes
